@@ -143,3 +143,71 @@ func TestC04Aligned(t *testing.T) {
 func TestC04(t *testing.T) {
 	ev.Explore(run, t, "dag", run.N(2500, 40000), gen, exec)
 }
+
+// ---- wide requests -------------------------------------------------------------------------------
+//
+// The statement has no bound on the number of dependencies of one request: a target that asks for hundreds
+// of targets at once, some of which fail in their body or cannot be loaded, is handed every one's actual
+// outcome and continues only when all of them have finished.
+
+type WideCase struct {
+	N       int    `json:"n"`                 // dependencies of the root's one request
+	Fail    []int  `json:"fail,omitempty"`    // positions whose target fails in its body
+	Unknown []int  `json:"unknown,omitempty"` // positions whose target cannot be loaded
+	Second  int    `json:"second,omitempty"`  // that many leaves have a dependency of their own (a shared last node)
+	Mode    string `json:"mode"`
+}
+
+func (w WideCase) graph() rungraph.Case {
+	nodes := make([]rungraph.Node, w.N+2)
+	deps := make([]int, w.N)
+	for i := range deps {
+		deps[i] = i + 1
+	}
+	nodes[0] = rungraph.Node{Reqs: [][]int{deps}, Tolerant: true}
+	for _, f := range w.Fail {
+		nodes[1+f%w.N].Fail = true
+	}
+	for _, u := range w.Unknown {
+		nodes[1+u%w.N] = rungraph.Node{Unknown: true}
+	}
+	for k := 0; k < w.Second; k++ {
+		i := 1 + (k*37+5)%w.N
+		if !nodes[i].Unknown {
+			nodes[i].Reqs = [][]int{{w.N + 1}}
+		}
+	}
+	return rungraph.Case{Nodes: nodes, Root: 0, Pol: cosched.Policy{Mode: w.Mode, MaxSteps: 40*w.N*w.N + 400000}}
+}
+
+func TestC04Wide(t *testing.T) {
+	ev.Explore(run, t, "wide", run.N(25, 400), func(rt *rapid.T) WideCase {
+		w := WideCase{N: rapid.SampledFrom([]int{129, 130, 200, 257, 300, 513, 700, 1025, 65, 33}).Draw(rt, "n"),
+			Mode: rapid.SampledFrom([]string{"jitter", "jitter", "random"}).Draw(rt, "mode"), Second: rapid.IntRange(0, 3).Draw(rt, "second")}
+		pos := func(label string) int {
+			// early, late or anywhere in the request
+			switch rapid.IntRange(0, 2).Draw(rt, label+"where") {
+			case 0:
+				return rapid.IntRange(0, 3).Draw(rt, label)
+			case 1:
+				return w.N - 1 - rapid.IntRange(0, 3).Draw(rt, label)
+			}
+			return rapid.IntRange(0, w.N-1).Draw(rt, label)
+		}
+		for k, n := 0, rapid.IntRange(0, 2).Draw(rt, "nfail"); k < n; k++ {
+			w.Fail = append(w.Fail, pos("fail"))
+		}
+		for k, n := 0, rapid.IntRange(0, 2).Draw(rt, "nunknown"); k < n; k++ {
+			w.Unknown = append(w.Unknown, pos("unknown"))
+		}
+		return w
+	}, func(w WideCase) ev.Verdict {
+		v := exec(w.graph())
+		v.Classes = append(v.Classes, fmt.Sprintf("wide:%d", w.N))
+		if len(w.Fail)+len(w.Unknown) > 0 {
+			v.NonTrivial = true
+			v.Classes = append(v.Classes, "wide-with-failure")
+		}
+		return v
+	})
+}
